@@ -51,6 +51,7 @@ Definition reference_facts : facts := {|
   f_guards := ref_guards;
   f_local_meter := true;
   f_oog_only := true;
+  f_addr_conv_total := true;
   f_direct_ro := true;
   f_call_inherits_static := false |}.
 
@@ -77,11 +78,14 @@ Definition call_of (sel : Z) (len : Z) (args : list arg) : input :=
 
 Definition empty_calldata : input := {| i_len := 0; i_head := []; i_unpack := None |}.
 Definition bankMsgSend_call (denom : list Z) (amt : Z) : input :=
-  call_of 278624872 292 [AStr hex_addr false false; AStr denom false false; AUint amt].
+  call_of 278624872 292 [AStr hex_addr false 0 false; AStr denom false 0 false; AUint amt].
 Definition sendToEvm_call (denom : list Z) (amt : Z) : input :=
-  call_of 772831913 292 [AStr denom false false; AUint amt; AStr hex_addr false false].
+  call_of 772831913 292 [AStr denom false 0 false; AUint amt; AStr hex_addr false 0 false].
 Definition sendToBank_call (amt : Z) : input :=
-  call_of 3883550655 228 [AAddr; AUint amt; AStr hex_addr false false].
-Definition whoAmI_call : input := call_of 2099940174 132 [AStr hex_addr false false].
+  call_of 3883550655 228 [AAddr; AUint amt; AStr hex_addr false 0 false].
+(** whoAmI("nibi1…") with a valid bech32 string whose payload has 3 bytes *)
+Definition whoAmI_short_bech32_call : input :=
+  call_of 2099940174 132 [AStr [110; 105; 98; 105; 49; 52; 48; 120; 55; 55; 114; 57; 54; 54; 113] true 3 false].
+Definition whoAmI_call : input := call_of 2099940174 132 [AStr hex_addr false 0 false].
 Definition oracle_query_call : input :=
-  call_of 1808896047 100 [AStr (unibi ++ [58; 117; 117; 115; 100]) false false].
+  call_of 1808896047 100 [AStr (unibi ++ [58; 117; 117; 115; 100]) false 0 false].
